@@ -1,6 +1,7 @@
 import XL.Proofs.Syntax
 import XL.Proofs.ParseRender
 import XL.Proofs.Blanks
+import XL.Proofs.LexBlanks
 /-!
 # C09 — JSON export and import preserve every value and are a fixed point
 
@@ -157,5 +158,30 @@ open XL.Blanks in
 and C4, and C4 alone is referred to.  C4 is listed, then B4, then B2 — whatever the order of the ranges -/
 example : closure 1 [[2, 4], [4, 5], [5]] [] = [5, 4, 2] ∧ closure 1 [[5], [4, 5], [2, 4]] [] = [5, 4, 2] ∧
     closure 1 [[2, 4], [4, 5]] [] = [] := by decide
+
+/-! ### export → import on the characters -/
+
+/-- **the exported text of a formula parses back to its tree** — not on tokens but on the characters: for every
+render-stable tree (numbers, cell names, plain strings, the twelve binary operators, signs, `%`, calls; no sign
+directly under a sign or behind `+`/`-`, no `%` of a `%`, no sign of a `%` — the shapes of the known findings
+`sign-run` and `double-percent`), the parser model — tokeniser loop with its ten filters, blanks and all, and the
+shunting-yard — reads `=` followed by `render t` back as `t` -/
+theorem export_text_reparses (ct : LexText.CT) (h : LexText.CT.RWF ct) :
+    parseString ('=' :: (render ct.toAst).toList) = .ok ct.toAst := LexText.render_text_parses ct h
+
+/-- … hence exporting what was imported from an export changes nothing -/
+theorem export_text_fixed_point (ct : LexText.CT) (h : LexText.CT.RWF ct) :
+    (parseString ('=' :: (render ct.toAst).toList)).map render = .ok (render ct.toAst) := by
+  rw [export_text_reparses ct h]; rfl
+
+/-- the decidable shape used by the driver (`rtext`) implies the hypothesis of the theorem -/
+theorem export_text_class (ct : LexText.CT) (h : LexText.CT.WF ct) (hs : ct.shapeOK = true) : LexText.CT.RWF ct :=
+  LexText.rwf_of_wf_shape ct h hs
+
+-- non-vacuity: the tree of `=(1 + A1%)` is render-stable, and its exported text is that text
+example : LexText.CT.RWF (.bin "+" (.num ['1']) (.pct (.cell ['A'] ['1']))) :=
+  LexText.rwf_of_wf_shape _ (LexText.CT.WF.bin _ _ _ (by decide) (LexText.CT.WF.num _ (by decide) (by decide))
+    (LexText.CT.WF.pct _ (LexText.CT.WF.cell _ _ ⟨by decide, by decide, by decide, by decide, by decide⟩))) (by decide)
+example : (render (LexText.CT.toAst (.bin "+" (.num ['1']) (.pct (.cell ['A'] ['1']))))) = "(1 + A1%)" := by decide +kernel
 
 end XL.C09
